@@ -73,7 +73,13 @@ class Ctx:
       if any(b is None for b in bounds):
         continue
       bound = {}
+      # calls of the helper to itself must hand the parameter on unchanged
+      inner = [self.bound_args(c, h) for c in self.calls(h)
+               if self.p.resolve(c.func, h) == q]
       for prm in h.params:
+        if any(b is None or prm not in b or unparse(b[prm]) != prm
+               for b in inner):
+          continue
         vals = {unparse(b[prm]) for b in bounds if prm in b}
         first = bounds[0].get(prm)
         if len(vals) == 1 and isinstance(first, ast.Name) and (
